@@ -271,7 +271,17 @@ def gen_dict_case(rng):
             m = rng.randrange(len(vf))
             ops.append(["bpf_modify", k, m, sx(rng.getrandbits(64), vf[m]),
                         rng.choice(["set", "iadd"])])
-    return dict(kf=kf, vf=vf, keys=keys, ops=ops, lru=rng.random() < 0.3)
+    extra = None
+    if rng.random() < 0.5:
+        # other stack users between filling d.value and d.update(): a second
+        # Dict, a hash-map variable store, a stack variable declared later
+        vf2 = gen_struct(rng, 4)
+        extra = dict(vf2=vf2, vals2=[sx(rng.getrandbits(64), f)
+                                     for f in vf2],
+                     lfmt=rng.choice("BHIQ"), lval=rng.getrandbits(8) | 1,
+                     key2=rng.getrandbits(31))
+    return dict(kf=kf, vf=vf, keys=keys, ops=ops, lru=rng.random() < 0.3,
+                extra=extra)
 
 
 def build_dict(case):
@@ -292,6 +302,18 @@ def build_dict(case):
         ns[f"iv{i}"] = m.globalVar(f)
         ns[f"ov{i}"] = m.globalVar(f)
     ns["newval"] = m.globalVar("q")
+    extra = case.get("extra")
+    if extra:
+        from ebpfcat.ebpf import LocalVar
+        Key2 = type("Key2", (Structure,), {"k": Member("I")})
+        Value2 = type("Value2", (Structure,),
+                      {f"w{i}": Member(f)
+                       for i, f in enumerate(extra["vf2"])})
+        ns["d2"] = Dict(key=Key2, value=Value2, size=8)
+        ns["hm"] = HashMap()
+        ns["hv"] = ns["hm"].globalVar("Q", 100)
+        ns["lv"] = LocalVar(extra["lfmt"])
+        ns["lvout"] = m.globalVar("Q")
 
     def program(self):
         e = self
@@ -301,8 +323,17 @@ def build_dict(case):
             with e.op == opno:
                 for i in range(len(vf)):
                     setattr(e.d.value, f"v{i}", getattr(e, f"iv{i}"))
+                if extra:
+                    e.lv = extra["lval"]
+                    e.hv = e.hv + 1
+                    e.d2.key.k = extra["key2"]
+                    for i, v in enumerate(extra["vals2"]):
+                        setattr(e.d2.value, f"w{i}", v)
                 e.d.update(UpdateFlags[flagname])
                 e.rc = e.sr0
+                if extra:
+                    e.d2.update()
+                    e.lvout = e.lv
                 e.r0 = 2
                 e.exit()
         with e.op == 4:
@@ -374,6 +405,7 @@ def check_dict(case, res, monitor=False):
                 return mon
             fd = e.d.fd
             model = {}
+            nup = [0]
             mm = e.__dict__["m"]
 
             def mk_key(k):
@@ -498,6 +530,33 @@ def check_dict(case, res, monitor=False):
                         return fail("unexplained:dict-bpf-update-rc",
                                     f"update({op[3]}) returned {rc}, "
                                     f"model {want_rc}", op) or mon
+                    ex = case.get("extra")
+                    if ex:
+                        res.count("dict_update_with_other_stack_users")
+                        nup[0] += 1
+                        v2size = layout(ex["vf2"])[1]
+                        d2 = kern.map_dump(e.d2.fd, 4, v2size)
+                        want2 = {struct.pack("<I", ex["key2"]):
+                                 pack_struct(ex["vf2"], ex["vals2"])}
+                        if d2 != want2:
+                            return fail(
+                                "unexplained:dict-second-dict-entry",
+                                f"second Dict holds "
+                                f"{ {k.hex(): v.hex() for k, v in d2.items()} }"
+                                f", the program stored "
+                                f"{ {k.hex(): v.hex() for k, v in want2.items()} }",
+                                op) or mon
+                        if e.lvout != ex["lval"]:
+                            return fail(
+                                "unexplained:dict-stack-variable-clobbered",
+                                f"stack variable reads {e.lvout:#x} after "
+                                f"the updates, was set to {ex['lval']:#x}",
+                                op) or mon
+                        if e.hv != 100 + nup[0]:
+                            return fail(
+                                "unexplained:dict-hash-variable",
+                                f"hash variable reads {e.hv} after "
+                                f"{nup[0]} increments from 100", op) or mon
                 elif op[0] == "bpf_lookup":
                     bpf_inputs(op[1], op=4)
                     ld.run_k(bytes(64))
